@@ -190,10 +190,16 @@ func keepSameLineAsPrevious(node Node) bool {
 func needNewLineAfter(node Node) bool {
 	switch n := node.(type) { //nolint:exahustive // we may add more later
 	case *Comment:
-		return !n.SameLineAsNext
+		// nothing can follow a line comment on its line, whatever the flags say (`// a` newline `;// b`).
+		return !n.SameLineAsNext || strings.HasPrefix(n.Literal(), "//")
 	default:
 		return true
 	}
+}
+
+func isLineComment(node Node) bool {
+	c, ok := node.(*Comment)
+	return ok && strings.HasPrefix(c.Literal(), "//")
 }
 
 func isComment(node Node) bool {
@@ -219,7 +225,7 @@ func prettyPrintCompact(ps *PrintState, s Node, i int) bool {
 // Normal/long form print: Decide if using new line or space as separator.
 func prettyPrintLongForm(ps *PrintState, s Node, i int) {
 	if i > 0 || ps.IndentLevel > 1 {
-		if keepSameLineAsPrevious(s) || !needNewLineAfter(ps.prev) {
+		if !needNewLineAfter(ps.prev) || (keepSameLineAsPrevious(s) && !isLineComment(ps.prev)) {
 			log.Debugf("=> PrettyPrint adding just a space")
 			_, _ = ps.Out.Write([]byte{' '})
 			ps.IndentationDone = true
